@@ -84,6 +84,8 @@ type env struct {
 	accepted      map[string]bool     // header digests of blocks that were ever on a correct node's main chain (checked once)
 	slotOwner     map[int64]string    // slot index -> producer id of a block accepted on some main chain
 	faultsStopped bool
+	shadow        *simnode.Node // second machine of the Byzantine producer (private branch)
+	shadowFork    uint64
 }
 
 func digestOf(b *types.Block) string {
@@ -705,15 +707,36 @@ func (e *env) privateFork(bz, arg, mask int) {
 	}
 	forkAt := best - depth
 	length := int(depth) + 1 + (arg/6)%3
-	sh := e.net.AddNode(bz, nil, "dpos")
-	defer sh.Stop()
 	e.setClock()
-	for h := uint64(1); h <= forkAt; h++ {
-		var blk *types.Block
-		n.Do(func() { blk, _ = n.CS.VerifGetBlockByNo(h) })
-		if blk == nil || sh.AddBlock(blk, "self") != nil {
-			x.Noop()
-			return
+	var sh *simnode.Node
+	extended := false
+	if e.shadow != nil && e.shadow.Up && (arg/18)%2 == 0 {
+		extended = true
+		// keep extending the private branch it already has until it is longer than the public chain
+		// (the interesting case: the public chain's LIB has meanwhile passed the fork point)
+		sh = e.shadow
+		forkAt = e.shadowFork
+		sb := sh.Best().BlockNo()
+		length = 1 + (arg/6)%3
+		if sb <= best {
+			length += int(best - sb)
+		}
+		if length > 12 {
+			length = 12
+		}
+	} else {
+		if e.shadow != nil {
+			e.shadow.Stop()
+		}
+		sh = e.net.AddNode(bz, nil, "dpos")
+		e.shadow, e.shadowFork = sh, forkAt
+		for h := uint64(1); h <= forkAt; h++ {
+			var blk *types.Block
+			n.Do(func() { blk, _ = n.CS.VerifGetBlockByNo(h) })
+			if blk == nil || sh.AddBlock(blk, "self") != nil {
+				x.Noop()
+				return
+			}
 		}
 	}
 	im := int64(e.intv) * 1000
@@ -746,8 +769,31 @@ func (e *env) privateFork(bz, arg, mask int) {
 	if mask == 0 {
 		mask = -1
 	}
-	for _, b := range made {
-		e.broadcast(bz, b, kPrivateFork, mask)
+	if sh != e.shadow || !extended {
+		for _, b := range made {
+			e.broadcast(bz, b, kPrivateFork, mask)
+		}
+		return
+	}
+	// an extended branch is published: the whole branch, in order, to the chosen peers, right now
+	x.Probe("private-branch-extended-and-published")
+	top := sh.Best().BlockNo()
+	for to := range e.nodes {
+		if to == bz || mask&(1<<uint(to)) == 0 || !e.nodes[to].Up || e.group[bz] != e.group[to] {
+			continue
+		}
+		for h := forkAt + 1; h <= top; h++ {
+			var blk *types.Block
+			sh.Do(func() { blk, _ = sh.CS.VerifGetBlockByNo(h) })
+			if blk == nil {
+				break
+			}
+			e.msgs = append(e.msgs, &envelope{from: bz, to: to, b: simnode.CloneBlock(blk), kind: kPrivateFork})
+			e.doDeliver(len(e.msgs)-1, false)
+			if x.Failed() {
+				return
+			}
+		}
 	}
 }
 
